@@ -24,6 +24,8 @@ import (
 	"testing"
 	"time"
 
+	pdlog "github.com/pingcap/log"
+	"go.uber.org/zap/zapcore"
 	"pgregory.net/rapid"
 )
 
@@ -325,7 +327,10 @@ func Finding(t *testing.T, key string, reproduced bool, detail string) {
 }
 
 // Main is the TestMain body: runs the tests and writes the statistics file.
-func Main(m *testing.M, id string) {
+func Main(m *testing.M, id string) { MainWith(m, id, nil) }
+
+// MainWith is Main with a clean-up function that runs after the tests (e.g. stop etcd).
+func MainWith(m *testing.M, id string, cleanup func()) {
 	propertyID = id
 	start := time.Now()
 	code := m.Run()
@@ -340,6 +345,9 @@ func Main(m *testing.M, id string) {
 		}
 		os.WriteFile(pfx+".nt", hs, 0o644)
 		st.mu.Unlock()
+	}
+	if cleanup != nil {
+		cleanup()
 	}
 	os.Exit(code)
 }
@@ -358,3 +366,6 @@ func Known(key string) bool {
 	}
 	return false
 }
+
+// Quiet raises pd's global log level to error so that shard logs stay small.
+func Quiet() { pdlog.SetLevel(zapcore.ErrorLevel) }
